@@ -695,6 +695,22 @@ func (vc *VC) evalSliceExpr(fr *frame, st *State, x *ast.SliceExpr) Val {
 	case *types.Array:
 		base, ok := vc.boxArray(fr, st, x.X, u)
 		if !ok {
+			// an array that is a field of a heap object: the slice is modelled as a snapshot copy of the
+			// array, which is faithful only when neither alias is written afterwards - checked syntactically
+			if _, isSel := x.X.(*ast.SelectorExpr); isSel && structOf(u.Elem()) == nil && !vc.writesAfter(fr, x.End()) {
+				if av, isT := vc.evalExpr(fr, st, x.X).(Term); isT {
+					base = vc.allocRef(st, "arrsnap")
+					key := vc.elemKey(u.Elem())
+					h := vc.heap(st, key, HeapSort(vc.sortOf(u.Elem())))
+					saved := vc.checkFrm
+					vc.checkFrm = false
+					vc.setHeap(st, key, Store(h, base, av))
+					vc.checkFrm = saved
+					ok = true
+				}
+			}
+		}
+		if !ok {
 			vc.errorf(x.Pos(), "slicing of this array expression is unsupported")
 			return vc.havocVal(fr.typeOf(x), "slice")
 		}
@@ -1524,4 +1540,55 @@ func (vc *VC) returnsElemPtr(fi *FuncInfo) bool {
 	}
 	_, ok = u.X.(*ast.IndexExpr)
 	return ok
+}
+
+// writesAfter reports whether the function being executed contains, after source position pos, a statement
+// that could write through a slice or into an array: an assignment to an index expression, or a call of
+// copy / append, or any call that is not a plain constructor-style call in a return statement.
+func (vc *VC) writesAfter(fr *frame, pos token.Pos) bool {
+	var body *ast.BlockStmt
+	if fr.fn != nil && fr.fn.Decl != nil {
+		body = fr.fn.Decl.Body
+	}
+	if body == nil {
+		return true
+	}
+	found := false
+	ast.Inspect(body, func(n ast.Node) bool {
+		if n == nil || found {
+			return false
+		}
+		if n.End() <= pos {
+			return false
+		}
+		switch y := n.(type) {
+		case *ast.AssignStmt:
+			if y.Pos() > pos {
+				for _, l := range y.Lhs {
+					if _, ok := l.(*ast.IndexExpr); ok {
+						found = true
+					}
+				}
+			}
+		case *ast.IncDecStmt:
+			if y.Pos() > pos {
+				if _, ok := y.X.(*ast.IndexExpr); ok {
+					found = true
+				}
+			}
+		case *ast.CallExpr:
+			if y.Pos() > pos {
+				if id, ok := y.Fun.(*ast.Ident); ok && (id.Name == "copy" || id.Name == "append") {
+					found = true
+				}
+			}
+		case *ast.ForStmt, *ast.RangeStmt:
+			// a loop around the slice expression could come back to earlier writes
+			if y.Pos() < pos && y.End() > pos {
+				found = true
+			}
+		}
+		return true
+	})
+	return found
 }
